@@ -24,7 +24,7 @@ EXPLANATION = ('A symbolic history (List[int]) of events {enter one of three set
                'stack. CrossHair reports "Confirmed over all paths" = holds for every history within the bound. A concrete run with two real threads and '
                'barriers complements it.')
 FUNCTIONS = ['Config.__init__/__enter__/__exit__/instance', 'ConfigState (frozen dataclass, replace)', '_config_var (ContextVar, token reset)', 'InverseOperator.__init__ (config capture) / mv (solver, throw, options)']
-BOUNDS = {'quick': 'histories of length <= 4 over the 9 event kinds without deferred construction (7 380) and over the 8 kinds {enter 0/1, leave, leave by exception, read, construct 0/1, enter constructed} (4 680); two-task schedules of length <= 4 over 4 event kinds', 'thorough': 'histories of length <= 4 over all 12 event kinds (22 620) and of length <= 5 over the 9 kinds (66 429), schedules of length <= 5'}
+BOUNDS = {'quick': 'histories of length <= 4 over the 9 event kinds without deferred construction (7 380) and over the 8 kinds {enter 0/1, leave, leave by exception, read, construct 0/1, enter constructed} (4 680); two-task schedules of length <= 4 over 4 event kinds', 'thorough': 'histories of length <= 4 over all 12 event kinds (22 620) and of length <= 5 over 7 kinds (enter setting 0 / 2, leave, leave by exception, create, apply, read: 19 607), schedules of length <= 5'}
 STUBS = ['lineax.linear_solve -> recorder of (solver, throw, options); jax.debug.callback dropped',
          'equinox module construction and the recorded solve run under crosshair NoTracing (values there are concrete)']
 ASSUMPTIONS = ['a thread switch changes context-variable state only through the Context switch; preemption inside the C-level ContextVar.set is outside the claim',
@@ -36,6 +36,7 @@ CASE_TIMEOUT = {'quick': 700, 'thorough': 2700}
 
 ALPHA_A = list(range(9))                    # every event kind except deferred construction
 ALPHA_B = [0, 1, 3, 4, 7, 9, 10, 11]       # enter / leave / read + construct-now-enter-later
+ALPHA_C = [0, 2, 3, 4, 5, 6, 7]             # length-5 histories: enter S1 / enter the setting with options and preconditioner, leave (both ways), create, apply, read
 NOOP_HEADS = (3, 4, 6, 8, 11)               # a no-op as first event: the rest is a shorter history covered by the other runs
 
 
@@ -47,7 +48,7 @@ def cases(tier, seed):
         out += [('isolated', first, 4) for first in range(3)]
     else:
         out += [('scoped', first, 4, 'all') for first in range(12)]
-        out += [('scoped', first, 5, 'A') for first in ALPHA_A]
+        out += [('scoped', first, 5, 'C') for first in ALPHA_C if first not in NOOP_HEADS]
         out += [('isolated', first, 5) for first in range(4)]
     out.append(('threads',))
     return out
@@ -58,7 +59,7 @@ def twins():
 
 
 def _crosshair(mode, first, maxlen, timeout, mutant=False, alpha='all'):
-    allowed = {'A': ALPHA_A, 'B': ALPHA_B}.get(alpha)
+    allowed = {'A': ALPHA_A, 'B': ALPHA_B, 'C': ALPHA_C}.get(alpha)
     env = dict(os.environ, C19_ALLOWED=','.join(map(str, allowed)) if allowed else '', C19_FIRST=str(first), C19_MAXLEN=str(maxlen), C19_MODE=mode, PYTHONPATH=VERIF + os.pathsep + os.environ.get('PYTHONPATH', ''))
     target = os.path.join(VERIF, 'fxv', 'ch', 'c19_driver_mut.py' if mutant else 'c19_driver.py')
     t0 = time.time()
